@@ -9,6 +9,8 @@ with the reference model M1 (vf/models/hashes.py):
  (d) SMHasher verification values
  (e) history independence: values recomputed in interleaved / reversed order
  (f) a second interpreter with another PYTHONHASHSEED recomputes a digest
+ (g) keys produced inside jitted code as slice views buf[a:b] (offsets 0..16, lengths
+     0..40, three buffers without NUL bytes): same value as for the equal bytes object
 """
 import hashlib
 import os
@@ -92,6 +94,37 @@ from vf.checks import c11
 impl = {"fasthash64": m.fasthash64, "fasthash32": m.fasthash32, "murmur3": m.murmur3}
 print("DIGEST", c11.digest_a(impl, %(salt)d))
 """
+
+
+_DRV = {}
+
+
+def _seed_t(name, seed):
+    import numpy as np
+
+    return np.uint32(seed) if name == "murmur3" else np.uint64(seed)
+
+
+def _jit_drivers():
+    """Harness-side jitted callers that build the key as a slice view inside nopython code."""
+    if not _DRV:
+        from numba import njit
+        from sketchnu.hashes import fasthash64, fasthash32, murmur3
+
+        @njit
+        def d64(buf, a, b, seed):
+            return fasthash64(buf[a:b], seed)
+
+        @njit
+        def d32(buf, a, b, seed):
+            return fasthash32(buf[a:b], seed)
+
+        @njit
+        def dm3(buf, a, b, seed):
+            return murmur3(buf[a:b], seed)
+
+        _DRV.update({"fasthash64": d64, "fasthash32": d32, "murmur3": dm3})
+    return _DRV
 
 
 def _second_start(salt):
@@ -196,6 +229,34 @@ def run(rep):
         rep.nontrivial(("c", off))
     inputs += nc
 
+    # (g) keys produced INSIDE jitted code: a slice view buf[a:b] of a larger buffer whose
+    #     neighbouring bytes are non-zero (how the library's own n-gram shingling calls the
+    #     hashes).  A Python-created bytes object always ends in a hidden NUL; a view does not.
+    drivers = _jit_drivers()
+    bufs = [bytes(0x80 + ((i * 29 + salt) % 0x7F) for i in range(96)), b"\xff" * 96,
+            bytes((i % 7) + 1 for i in range(96))]
+    ng = 0
+    for bi, buf in enumerate(bufs):
+        for a in range(0, 17):
+            for n in range(0, 41):
+                b = a + n
+                for name in FUNCS:
+                    seed = FUNCS[name][1][(a + n) % len(FUNCS[name][1])]
+                    got = int(drivers[name](buf, a, b, _seed_t(name, seed)))
+                    exp = FUNCS[name][0](buf[a:b], seed)
+                    rep.evals()
+                    ng += 1
+                    if got != exp:
+                        rep.violation(
+                            {"kind": "jitslice", "fn": name, "buf": buf, "a": a, "b": b, "seed": seed},
+                            f"{name} of the jit-created slice buf[{a}:{b}] (len {n}) = {got:#x}, "
+                            f"reference on the same bytes {exp:#x}: the value depends on how the "
+                            f"bytes object was produced",
+                        )
+        rep.nontrivial(("g", bi))
+    inputs += ng // 3
+    rep.part("g_jit_slices", evaluations=ng)
+
     # (e) history independence
     keys = [k for n in (0, 1, 3, 7, 8, 9, 15, 16, 31, 64) for k in _patterns(n, salt)[2:4]]
     first = {}
@@ -253,6 +314,12 @@ def replay(case):
         name = case["fn"]
         got = int(impl[name](case["key"], case["seed"]))
         exp = FUNCS[name][0](case["key"], case["seed"])
+        return got != exp, {"got": got, "reference": exp}
+    if k == "jitslice":
+        name = case["fn"]
+        got = int(_jit_drivers()[name](case["buf"], case["a"], case["b"],
+                                       _seed_t(name, case["seed"])))
+        exp = FUNCS[name][0](case["buf"][case["a"] : case["b"]], case["seed"])
         return got != exp, {"got": got, "reference": exp}
     if k == "smhasher":
         name = case["fn"]
